@@ -478,6 +478,55 @@ def readonly(x):
     return y
 
 
+# Positional call forms.  The parameter order of every public entry point this check drives, as documented on the PRISTINE
+# tree (hard-coded on purpose: a changed tree must not redefine the expected order).  In a share of the cases the same call is
+# made (a) fully positionally in this order and (b) fully by keyword with these names; both must give the answer of the call
+# the oracle judges, bit for bit (NaN = NaN).  A parameter inserted in the middle of a signature, or two swapped parameters,
+# leave keyword callers untouched and silently re-bind the values of a positional caller.
+POSITIONAL = {
+    "pLSCF": ("Sy", "dt", "ordmax", "sgn_basf"),
+    "pLSCF_poles": ("Ad", "Bn", "dt", "methodSy", "nxseg"),
+    "rmfd2ac": ("A_den", "B_num"),
+    "ac2mp_poly": ("A", "C", "dt", "methodSy", "nxseg"),
+    "SingleSetup": ("data", "fs"),
+    "pLSCF.__init__": ("run_params", "name"),
+}
+
+
+def same_bits(x, y):
+    if isinstance(x, (list, tuple)) or isinstance(y, (list, tuple)):
+        return isinstance(x, (list, tuple)) and isinstance(y, (list, tuple)) and len(x) == len(y) and all(same_bits(a, b) for a, b in zip(x, y))
+    x, y = np.asarray(x), np.asarray(y)
+    return x.shape == y.shape and bool(np.array_equal(x, y, equal_nan=True))
+
+
+def both_forms(ctx, case, entry, fn, values, ref):
+    """Call fn(*values) (documented order) and fn(**names) and require the answer `ref` of the call the oracle judges.
+    Returns the positional answer (None when it raised)."""
+    names = POSITIONAL[entry]
+    shown = "%s(%s)" % (entry, ", ".join(names))
+    try:
+        with np.errstate(all="ignore"):
+            pos = fn(*values)
+    except Exception as e:  # noqa: BLE001
+        ctx.fail("oracle", "%s called positionally in the documented order raised %s (%s) where the same call with named arguments returns"
+                 % (shown, type(e).__name__, str(e)[:80]), dict(case, positional=list(names)), key="C05:%s:positional-call" % entry)
+        return None
+    if not same_bits(pos, ref):
+        ctx.fail("oracle", "%s called positionally in the documented order does not return what the same call with named arguments returns: "
+                 "the values are bound to other parameters" % shown, dict(case, positional=list(names)), key="C05:%s:positional-call" % entry)
+        return pos
+    try:
+        with np.errstate(all="ignore"):
+            kw = fn(**dict(zip(names, values)))
+    except TypeError:
+        return pos  # a renamed parameter is not what this clause is about
+    if not same_bits(kw, ref):
+        ctx.fail("oracle", "%s: the call with every argument named and the call in the documented positional order give different answers" % shown,
+                 dict(case, positional=list(names)), key="C05:%s:positional-call" % entry)
+    return pos
+
+
 def coef_tol(cond):
     """Tolerance of exact recovery, scaled by the conditioning of the constrained least-squares problem: the code forms normal
     equations, so its error is ~ eps * cond(J)^2.  Calibrated on the unchanged tree (500 draws over all shapes, 700 in the corner
@@ -703,6 +752,10 @@ def run(ctx):
         if len(Ad) != ordmax or len(Bn) != ordmax:
             ctx.fail("oracle", "pLSCF returned %d/%d coefficient sets for ordmax=%d" % (len(Ad), len(Bn), ordmax), case, key="C05:pLSCF:orders")
             continue
+        # positional form (Sy, dt, ordmax, sgn_basf): all 'HI' cases (sgn_basf = +1 is not the default, so a value that lands on
+        # another parameter leaves the 'LO' constraint in force) and a third of the 'LO' ones
+        if Nf <= 300 and (sgn == 1 or idx % 3 == 0):
+            both_forms(ctx, case, "pLSCF", plscf.pLSCF, (Sy_in, dt, ordmax, sg), (Ad, Bn))
         # every returned order: coefficient block shapes and the normalisation constraint
         bad_comp = None
         for k in range(ordmax):
@@ -741,6 +794,9 @@ def run(ctx):
                 continue
             ctx.fail("oracle", "pLSCF_poles raised %s on the coefficients pLSCF returned" % type(e).__name__, case, key="C05:poles:raise")
             continue
+        if method == "cor" or idx % 3 == 0:
+            # methodSy='cor' with nxseg: the pair whose exchange changes the reported values (window correction on/off)
+            both_forms(ctx, case, "pLSCF_poles", plscf.pLSCF_poles, (Ad, Bn, dt, method, nxseg), tables)
         oracle_order_column(ctx, case, tables, A, B, dt, method, nxseg, n - 1, Nch, ordmax, "e2e",
                             tol=max(TOL_POLE, 3 * floor * cond) if floor else max(TOL_POLE, coef_tol(cond)))
         if (n + 1) * Nch <= (12 if quick else 20) and not it.get("oracle_only"):
@@ -807,6 +863,8 @@ def run(ctx):
         if Ac.shape != (N, N) or Cc.shape != (l_, N):
             ctx.fail("oracle", "rmfd2ac returned shapes %s %s, expected (%d,%d) (%d,%d)" % (Ac.shape, Cc.shape, N, N, l_, N), case, key="C05:rmfd2ac:shape")
             continue
+        if k % 2 == 0:
+            both_forms(ctx, case, "rmfd2ac", plscf.rmfd2ac, (A_in, B_in), (Ac, Cc))
         # property text: (A, C) realises the right matrix fraction - every latent pair (z, v) of A(z) is an eigenpair with output B(z) v
         if degenerate is None:
             z, V = true_roots(A)
@@ -890,8 +948,33 @@ def run(ctx):
         if not all(np.array_equal(x, y) for x, y in zip(Ad_in + Bn_in, Ad + Bn)):
             ctx.fail("oracle", "pLSCF_poles modified the coefficient arrays it was given", case, key="C05:poles:input-modified")
             continue
+        if method == "cor" or k % 2 == 0:
+            both_forms(ctx, case, "pLSCF_poles", plscf.pLSCF_poles, (Ad_in, Bn_in, dt, method, nxseg), tables)
         if degenerate is None:
             oracle_order_column(ctx, case, tables, A, B, dt, method, nxseg, n - 1, Nch, ordmax, "direct", tight=direct_tols(A)[:2])
+        if degenerate is None and (method == "cor" or k % 2 == 0):
+            # ac2mp_poly(A, C, dt, methodSy, nxseg) on the realisation of the order-n coefficients, in both call forms; the
+            # property's oracle on its answer placed as the order-n column of otherwise empty tables
+            try:
+                A_ss, C_ss = plscf.rmfd2ac(A, B)
+                mp = plscf.ac2mp_poly(A_ss, C_ss, dt, methodSy=method, nxseg=nxseg)
+            except Exception as e:  # noqa: BLE001
+                ctx.fail("oracle", "ac2mp_poly raised %s on the realisation of a valid order-n model" % type(e).__name__, case, key="C05:ac2mp_poly:raise")
+                mp = None
+            if mp is not None:
+                both_forms(ctx, case, "ac2mp_poly", plscf.ac2mp_poly, (A_ss, C_ss, dt, method, nxseg), mp)
+                rows = (ordmax + 1) * Nch
+                fn1 = np.array(mp[0], float)
+                fn1[np.isinf(fn1)] = np.nan  # a root at infinity/zero is no pole: blanked when the tables are assembled
+                nr = len(fn1)
+                if nr <= rows and np.asarray(mp[2]).shape == (nr, Nref):
+                    T = [np.full((rows, ordmax), np.nan), np.full((rows, ordmax), np.nan),
+                         np.full((rows, ordmax, Nref), np.nan, complex), np.full((rows, ordmax), np.nan, complex)]
+                    T[0][:nr, n - 1], T[1][:nr, n - 1], T[2][:nr, n - 1, :], T[3][:nr, n - 1] = fn1, mp[1], mp[2], mp[3]
+                    oracle_order_column(ctx, case, T, A, B, dt, method, nxseg, n - 1, Nch, ordmax, "ac2mp_poly", tight=direct_tols(A)[:2])
+                else:
+                    ctx.fail("oracle", "ac2mp_poly returned %d poles with shapes of size %s for a realisation of order (n+1) Nch = %d with %d outputs"
+                             % (nr, np.asarray(mp[2]).shape, (n + 1) * Nch, Nref), case, key="C05:ac2mp_poly:shape")
         try:
             cols, eres = witness_columns(Ad, Bn, dt)
         except Exception as e:  # noqa: BLE001
@@ -951,6 +1034,7 @@ def run(ctx):
 def class_level(ctx, rng, dts):
     import pyoma2.algorithms.plscf as aplscf
     from pyoma2.algorithms import pLSCF
+    from pyoma2.algorithms.data.run_params import pLSCFRunParams
     from pyoma2.setup import SingleSetup
 
     orig = aplscf.fdd.SD_est
@@ -998,6 +1082,26 @@ def class_level(ctx, rng, dts):
                          dict(case, readonly=ro), key="C05:class:raise-readonly" if ro else "C05:class:raise")
                 continue
             r = alg.result
+            # the same run set up positionally: SingleSetup(data, fs), pLSCF(run_params, name), run_by_name(name)
+            try:
+                ss2 = SingleSetup(data.copy(), fs)
+                alg2 = pLSCF(pLSCFRunParams(ordmax=n, ordmin=0, nxseg=nxseg, method_SD=method,
+                                            hc=dict(conj=False, xi_max=2.0, mpc_lim=-1.0, mpd_lim=10.0)), "p")
+                ss2.add_algorithms(alg2)
+                ss2.run_by_name("p")
+                r2 = ss2["p"].result
+                names = ("Ad", "Bn", "Fn_poles", "Xi_poles", "Phi_poles", "Lab")
+                diff = [a for a in names if not same_bits(getattr(r2, a), getattr(r, a))]
+                if diff or abs(ss2.dt - ss.dt) > 0 or ss2.fs != ss.fs:
+                    ctx.fail("oracle", "SingleSetup(data, fs) / pLSCF(run_params, name) built positionally in the documented order give another result "
+                             "(%s) than the same setup built with named arguments" % ", ".join(diff or ["fs/dt"]),
+                             dict(case, positional=[list(POSITIONAL["SingleSetup"]), list(POSITIONAL["pLSCF.__init__"])]), key="C05:class:positional-call")
+                    continue
+            except Exception as e:  # noqa: BLE001
+                ctx.fail("oracle", "SingleSetup(data, fs) / pLSCF(run_params, name) / run_by_name(name) called positionally in the documented order raised %s (%s) "
+                         "where the same setup built with named arguments runs" % (type(e).__name__, str(e)[:80]),
+                         dict(case, positional=[list(POSITIONAL["SingleSetup"]), list(POSITIONAL["pLSCF.__init__"])]), key="C05:class:positional-call")
+                continue
             if not calls or abs(calls[0][0] - dt) > 1e-15 or calls[0][1] != nxseg or calls[0][2] != method:
                 ctx.fail("oracle", "pLSCF.run did not estimate the spectrum with the run parameters (dt, nxseg, method_SD): %s" % (calls[:1],), case, key="C05:class:sd-args")
                 continue
